@@ -122,6 +122,68 @@ def class_cut_sweep(chk, stats):
     return count
 
 
+def crash_resume(chk, stats):
+    """A calibration that dies in the middle of a batch (exception or Ctrl-C in model / loss / sampler) is resumed from its
+    folder: the folder holds the last COMPLETED batch, so restore + continue must reproduce the uninterrupted run."""
+    rng = chk.rng
+    count = 0
+    for li in range(3 if chk.tier == "quick" else 8):
+        base = cc.gen_case(rng, 0, max_ops=1, max_samplers=3, bs_max=2, e_max=2, prec_prob=10**9)
+        base["cfg"].update(prec=None, saving=True)
+        n = rng.randint(3, 4)
+        tv = cc.run_case(dict(base, ops=[["calibrate", n]]))["views"][-1]
+        n_model = tv["nsampled"] * base["cfg"]["E"]
+        # (sampler faults are keyed by the sampler's own call counter, which a restore rewinds: they would fire again)
+        plans = [["model", rng.below(n_model)] for _ in range(3)] + [["loss", rng.below(tv["nsampled"])] for _ in range(2)]
+        for j, f in enumerate(plans):
+            flavour = "interrupt" if j % 2 else None
+            c1 = dict(base, ops=[["calibrate", n]], fault=f, fault_flavour=flavour)
+            v1 = cc.run_case(c1)["views"][-1]
+            if v1["batchidx"] == 0 or v1["batchidx"] >= n:
+                continue                      # nothing had been completed (no checkpoint to resume from) / the fault came too late
+            rem = n - v1["batchidx"]
+            c2 = dict(c1, ops=[["calibrate", n], ["restore"], ["calibrate", rem]])
+            v2 = cc.run_case(c2)["views"]
+            count += 1
+            stats[f"crash_resume:{f[0]}:{flavour or 'exception'}"] += 1
+            if v2[1]["exn"] != 0 or v2[2]["exn"] != 0 or not cf.same_history(v2[2], tv):
+                chk.violation({"kind": "oracle", "clause": "crash-resume-differs", "fault": f[0], "flavour": flavour or "exception"},
+                              {"failed": "oracle:resume", "detail": f"fault {f} ({flavour or 'exception'}) after {v1['batchidx']} completed batches; "
+                               f"restore -> {v2[1]['exc']}, continue -> {v2[2]['exc']}, differs in "
+                               f"{cf.diff_history(v2[2], tv) if v2[2]['exn'] == 0 else 'n/a'}", "case": c2})
+    return count
+
+
+def nan_runs(chk, stats):
+    """NaN losses are legitimate values (a model may produce NaN series): a row holding one must survive a restore."""
+    import numpy as np
+
+    rng = chk.rng
+    count = 0
+    for li in range(2 if chk.tier == "quick" else 6):
+        spec = {"kinds": [("uniform", 3), ("halton", 2)], "nparams": 2, "E": 1, "seed": rng.below(2**31), "loss": "fourier", "rl": False,
+                "bounds": [[0.0, 0.1], [1.0, 1.1]], "model": "nan_model"}
+        n = 5
+        twin = rl.run_segments(spec, [n], [], folder=None)
+        if b"\x00\x00\x00\x00\x00\x00\xf8\x7f" not in twin["losses"] and b"\x00\x00\x00\x00\x00\x00\xf8\xff" not in twin["losses"]:
+            stats["nan_runs:no-nan"] += 1
+        folder = rl.scratch(f"c05_nan_{li}")
+        for cut in range(1, n):
+            shutil.rmtree(folder, ignore_errors=True)
+            folder.mkdir(parents=True)
+            h = rl.run_segments(spec, [cut, n - cut], ["restore"], folder=str(folder))
+            count += 1
+            stats["nan_runs"] += 1
+            d = rl.diff(twin, h)
+            if d:
+                chk.violation({"kind": "oracle", "clause": "real-resume-differs", "boundary": "restore", "with": "nan-losses"},
+                              {"failed": "oracle:resume", "detail": f"model producing NaN series for part of the space, restore after batch {cut} of {n}: "
+                               f"differs in {d} (shapes {h['shape']} vs {twin['shape']})",
+                               "case": {"spec": spec, "segments": [cut, n - cut], "boundaries": ["restore"]}})
+        shutil.rmtree(folder, ignore_errors=True)
+    return count
+
+
 def run(chk, replay=None):
     from collections import Counter
 
@@ -143,6 +205,8 @@ def run(chk, replay=None):
     n_tok = token_compositions(chk, extra) if not replay else 0
     n_real = real_compositions(chk, extra) if not replay else 0
     n_real += class_cut_sweep(chk, extra) if not replay else 0
+    n_real += nan_runs(chk, extra) if not replay else 0
+    n_tok += crash_resume(chk, extra) if not replay else 0
     stats.update(extra)
     cov = {
         "evaluations": len(cases) + n_tok + n_real, "distinct": len(keys) + n_tok + n_real,
